@@ -374,7 +374,8 @@ CLAIMS = {
              "one well-formed answer of the right class, reaches the engine only after certificate check, full decode "
              "and authentication, replaces an oversize answer, and serves the next good request; a valid request with "
              "any single byte replaced by any value is answered once, well-formed, and executes nothing unless it "
-             "decoded completely.",
+             "decoded completely and its length fields are consistent (one listed known finding: overrunning "
+             "*structure* lengths are accepted).",
         note="Environment stubbed (connection, certificate objects, DER loader); single-byte corruptions of 2 (quick) "
              "/ 5 (thorough) seed requests.",
     ),
@@ -419,22 +420,27 @@ CLAIMS = {
     "C11": dict(
         text="For each probe operation and KMIP version in the grid, with the identifier absent, existing or unknown, "
              "the response bytes and the resulting store are identical whether the engine starts fresh or from any "
-             "transient state within the bounds - decided over all paths of the real request-processing code.",
+             "transient state within the bounds - decided over all paths of the real request-processing code; no request "
+             "changes anything of the engine outside its per-request transient fields; and for the listed pairs "
+             "(first request, probe) the probe is answered identically by the same engine and by a fresh engine over "
+             "the store the first request left.",
         note="Pre-state symbolic instead of exploring histories; stub store; bounded placeholder length and store size.",
     ),
     "C08": dict(
         text="Within the bounds (<=3 items; any mix of outcomes, ID presence, continuation option) every executed item "
              "has exactly one result in order with its operation and ID echoed, processing stops at the first failure "
              "unless CONTINUE, and no exception leaves process_request once an item ran; an ID-less item addresses the "
-             "object created earlier in the same batch; every failing mutating handler leaves all stored objects and "
-             "the store event log untouched.",
+             "object created earlier in the same batch; every failing mutating handler - and every failing creating "
+             "operation (Create, Register, CreateKeyPair, DeriveKey with symbolic template shapes) - leaves all stored "
+             "objects and the store event log untouched, with nothing pending for a later item's commit.",
         note="Stubbed _process_operation for the loop conditions; stub store; bounded sizes.",
     ),
     "C04": dict(
         text="For each handler and stored object kind, from every storable state and mask configuration in the "
              "bounds, the post-state is an allowed successor, only Activate/Revoke/Destroy change state or "
              "existence, a failed call changes nothing, and the crypto backend is reached only for an Active object "
-             "of the right kind whose mask has the matching bit - shown on every path of the real handler code.",
+             "of the right kind whose mask has the matching bit, and every reported transition is in the committed "
+             "state - shown on every path of the real handler code.",
         note="Inductive step from an arbitrary stored state; trusts the stub store and the recording backend; masks "
              "symbolic in 2 groups of bits.",
     ),
